@@ -202,6 +202,9 @@ def common_obligations(ctx, repo, pid):
         # LENGUARD rule: a minimum-length guard must cover the constant subscripts of the routine it guards
         from .rules.params import check_len_guards
         check_len_guards(ctx, repo, pid, scope, report_modules=mods)
+        # FWDCOLLIDE rule: lazily created attributes of a class with a forwarding __getattr__ must not collide with the delegate's
+        from .rules.params import check_forward_collisions
+        check_forward_collisions(ctx, repo, pid, scope, report_modules=mods)
 
 
 def run_sentinels(ctx: Ctx, pid: str):
